@@ -819,10 +819,14 @@ class RectPartition(object):
 
             def __getitem__(self, indices):
                 """Return ``self[indices]``."""
+                if isinstance(indices, slice):
+                    # A slice also determines the order of the axes
+                    indices = list(range(partition.ndim))[indices]
+
                 try:
                     iter(indices)
                 except TypeError:
-                    # Slice or integer
+                    # Integer
                     slc = np.zeros(partition.ndim, dtype=object)
                     slc[indices] = slice(None)
                     squeeze_axes = np.where(slc == 0)[0]
